@@ -37,6 +37,12 @@
 #include <unifex/with_allocator.hpp>
 #include <unifex/repeat_effect_until.hpp>
 #include <unifex/when_all.hpp>
+#include <unifex/when_all_range.hpp>
+#if defined(__cpp_impl_coroutine)  // (the header includes the coroutine machinery unconditionally: C++20 configurations only)
+#include <unifex/stop_if_requested.hpp>
+#define KIT_HAVE_SIR 1
+#endif
+#include <unifex/just_from.hpp>
 #include <unifex/when_any.hpp>
 #include <unifex/with_query_value.hpp>
 
@@ -57,12 +63,16 @@ enum Kind {
   K_FINALLY, K_SEQUENCE, K_WHEN_ALL, K_STOP_WHEN, K_UNSTOPPABLE, K_VIA, K_ON,
   K_WITH_TAG, K_MAT_DEMAT, K_DONE_AS_OPT, K_LVWSS, K_ANY_SENDER, K_RETRY_WHEN, K_WHEN_ANY,
   K_DEFER, K_LVW, K_LVWST, K_ALLOCATE, K_INTO_VARIANT, K_VARIANT, K_WITH_ALLOC, K_REPEAT,
+  K_WAR, K_SIR, K_JUST_FROM, K_REPEAT_JUST, K_RETRY_JUST,
   K_COUNT
 };
 const char* kKindName[] = {"just", "just_error", "just_done", "leaf", "then", "upon_error", "upon_done", "let_value", "let_error",
                            "let_done", "finally", "sequence", "when_all", "stop_when", "unstoppable", "via", "on", "with_tag",
                            "mat_demat", "done_as_opt", "lvwss", "any_sender_of", "retry_when", "when_any",
-                           "defer", "let_value_with", "lvwst", "allocate", "into_variant", "variant_sender", "with_allocator", "repeat_until"};
+                           "defer", "let_value_with", "lvwst", "allocate", "into_variant", "variant_sender", "with_allocator", "repeat_until",
+                           "when_all_range", "stop_if_requested+", "just_from", "repeat(then(just))", "retry(then(just))"};
+inline bool is_when_all(int k) { return k == K_WHEN_ALL || k == K_WAR; }
+inline bool interposes_stop(int k) { return k == K_WHEN_ALL || k == K_WAR || k == K_STOP_WHEN || k == K_WHEN_ANY; }
 
 struct Node {
   int id = 0;
@@ -78,6 +88,7 @@ struct Node {
   int leaf = -1;     // index into leaves for K_LEAF
   int throw_on_connect = -1;  // the connect of this instance number throws (-1: never)
   int connects = 0;
+  int aux = 0;          // per-node counter for callables that must survive being copied by the library
 };
 
 struct LeafScript {
@@ -202,11 +213,15 @@ void val_used(const void* self, const char* how) {
   if (!g_world) return;
   auto* r = val_find(self);
   KIT_CHECK(r != nullptr, "c02.use-dead", "Val used (%s) while not alive", how);
-  (void)r;
+  // values arrive unmodified: nothing reads, copies or forwards an object that has already been moved from
+  if (r && r->st == OBJ_MOVED && (!strcmp(how, "read") || !strcmp(how, "copy-from") || !strcmp(how, "move-from")))
+    KIT_CHECK(false, "c05.moved-from-value", "a value that had already been moved from was used again (%s): what is delivered is not the value the sender was given", how);
+  if (r && r->st == OBJ_MOVED && (!strcmp(how, "assign-to") || !strcmp(how, "move-assign-to"))) r->st = OBJ_ALIVE;  // assigned to: holds a value again
 }
 bool val_copy_should_throw() {
   usim::np_scope np;
   if (!g_world || !g_world->val_copy_throw_at) return false;
+  if (tl_noexcept_connect_depth > 0) return false;  // inside a connect() the library declares noexcept nothing is injected (see expr.hpp)
   if (++g_world->val_copies == g_world->val_copy_throw_at) { g_world->fault_injected = true; usim_probe("Val copy threw"); return true; }
   return false;
 }
@@ -576,6 +591,63 @@ void build_node(World* w, int id) {
       });
       break;
     }
+    case K_WAR: {
+      // when_all over a run-time sized vector of (identically typed) senders
+      int nc = n.nchild;
+      n.impl = make_node([a, b, c, nc, k] {
+        std::vector<any_snd> v;
+        v.reserve(3);
+        v.push_back(any_snd(a));
+        if (nc > 1) v.push_back(any_snd(b));
+        if (nc > 2) v.push_back(any_snd(c));
+        return unifex::then(unifex::when_all_range(std::move(v)), [k](std::vector<Val> vals) {
+          long ids[3] = {0, 0, 0};
+          int m = 0;
+          for (auto& x : vals) if (m < 3) ids[m++] = x.get();
+          return Val{combine(k, ids, m)};
+        });
+      });
+      break;
+    }
+#ifdef KIT_HAVE_SIR
+    case K_SIR: n.impl = make_node([a] { return unifex::sequence(unifex::stop_if_requested(), any_snd(a)); }); break;
+#else
+    case K_SIR: n.impl = make_node([a] { return unifex::sequence(unifex::just(), any_snd(a)); }); break;
+#endif
+    case K_JUST_FROM:
+      n.impl = make_node([nid, k, th] {
+        return unifex::just_from([nid, k, th] {
+          note_call(nid, k);
+          if (th) { { usim::np_scope np; g_world->fault_injected = true; } throw injected_throw(-6000 - nid); }
+          return Val{k};
+        });
+      });
+      break;
+    case K_REPEAT_JUST: {
+      // typed all the way down: repeat_effect_until re-connects its stored source - an lvalue just(v) - for every round
+      int rounds = 2 + (int)(k % 2);
+      n.impl = make_node([nid, k, rounds] {
+        return unifex::then(unifex::repeat_effect_until(unifex::then(unifex::just(Val{k}), [nid](Val v) noexcept { note_call(nid, v.get()); }),
+                                                        [rounds, count = 0]() mutable noexcept { return ++count >= rounds; }),
+                            [k] { return Val{mix(k, 78)}; });
+      });
+      break;
+    }
+    case K_RETRY_JUST:
+      // retry_when re-connects its stored source (an lvalue then(just(v), f)) after each of the first two attempts failed
+      n.impl = make_node([nid, k] {
+        return unifex::retry_when(unifex::then(unifex::just(Val{k}),
+                                               [nid, attempt = 0](Val v) mutable -> Val {
+                                                 note_call(nid, v.get());
+                                                 (void)attempt;
+                                                 int nth;
+                                                 { usim::np_scope np; nth = g_world->nodes[nid].aux++; }
+                                                 if (nth % 3 < 2) throw injected_throw(-6000 - nid);
+                                                 return v;
+                                               }),
+                                  [](std::exception_ptr) noexcept { return unifex::just(); });
+      });
+      break;
     case K_WITH_ALLOC: n.impl = make_node([a, k] { return unifex::with_allocator(any_snd(a), sim_allocator<std::byte>{2}); }); break;
     case K_WHEN_ANY:
       if (n.nchild == 2) n.impl = make_node([a, b] { return unifex::when_any(any_snd(a), any_snd(b)); });
@@ -647,6 +719,10 @@ int gen(World* w, int depth, int parent, int* budget) {
         static const int extra[] = {K_DEFER, K_LVW, K_LVWST, K_ALLOCATE, K_INTO_VARIANT, K_VARIANT, K_WITH_ALLOC, K_REPEAT, K_REPEAT};
         kind = extra[draw(9)];
       }
+      if (more >= 2 && draw(4) == 0) {  // (more=2 only: the tapes of more=1 replays keep their meaning)
+        static const int extra2[] = {K_WAR, K_WAR, K_WAR, K_SIR, K_JUST_FROM, K_REPEAT_JUST, K_RETRY_JUST};
+        kind = extra2[draw(7)];
+      }
     }
     if (kind == K_LEAF && w->nleaves >= kMaxLeaves) kind = K_JUST;
   }
@@ -698,6 +774,15 @@ int gen(World* w, int depth, int parent, int* budget) {
       kid(0); kid(1);
       if (draw(3) == 0 && *budget > 1) kid(2);
       break;
+    case K_WAR:
+      kid(0);
+      if (draw(4) != 0 && *budget > 1) kid(1);
+      if (w->nodes[id].nchild == 2 && draw(3) == 0 && *budget > 1) kid(2);
+      break;
+    case K_JUST_FROM:
+      w->nodes[id].throws = draw(6) == 0;
+      break;
+    case K_REPEAT_JUST: case K_RETRY_JUST: break;
     case K_VIA: case K_ON:
       w->nodes[id].ctx = draw(3);
       kid(0);
@@ -789,10 +874,10 @@ bool stop_possibly_visible(World* w, TapRec* t) {
   for (TapRec* c = t; c->parent; c = c->parent) {
     TapRec* p = c->parent;
     Node& pn = w->nodes[p->node];
-    if (pn.kind != K_WHEN_ALL && pn.kind != K_STOP_WHEN && pn.kind != K_WHEN_ANY) continue;
+    if (!interposes_stop(pn.kind)) continue;
     for (auto* s : w->taps) {
       if (s->parent != p || s == c || !s->completed) continue;
-      if (s->sig_enter < t->sig_enter && (pn.kind != K_WHEN_ALL || s->channel != CH_VALUE)) return true;
+      if (s->sig_enter < t->sig_enter && (!is_when_all(pn.kind) || s->channel != CH_VALUE)) return true;
     }
   }
   return false;
@@ -928,6 +1013,58 @@ void check_tap(World* w, TapRec* t, bool) {
       }
       break;
     }
+    case K_WAR: {
+      // like when_all, except that a stop request alone does not turn values into done: only a child's done/error does
+      TapRec* ch[3] = {child_done(c0, n0), n.nchild > 1 ? child_done(c1, n1) : nullptr, n.nchild > 2 ? child_done(c2, n2) : nullptr};
+      int nc = n.nchild;
+      for (int i = 0; i < nc; ++i) if (!ch[i]) { fail("completed although a child has not"); return; }
+      bool allv = true;
+      for (int i = 0; i < nc; ++i) allv &= ch[i]->channel == CH_VALUE;
+      if (allv) {
+        long ids[3];
+        for (int i = 0; i < nc; ++i) ids[i] = ch[i]->payload;
+        expect(CH_VALUE, combine(n.k, ids, nc), "all children produced values");
+      } else {
+        bool ok = false;
+        for (int i = 0; i < nc; ++i) {
+          if (ch[i]->channel == CH_VALUE) continue;
+          bool could_be_first = true;
+          for (int j = 0; j < nc; ++j)
+            if (j != i && ch[j]->channel != CH_VALUE && strictly_before(ch[j], ch[i])) could_be_first = false;
+          if (could_be_first && t->channel == ch[i]->channel && (t->channel == CH_DONE || t->payload == ch[i]->payload)) ok = true;
+        }
+        if (!ok) fail("not the result of the first child that completed with error/done");
+      }
+      usim_probe("when_all_range outcome checked");
+      break;
+    }
+    case K_SIR: {
+      // stop_if_requested(): done without starting the successor when stop is visible at start, else the successor's result
+      if (n0 == 0 || !c0[0]->started) {
+        if (relaxed && t->channel == CH_DONE) { usim_probe("stop_if_requested answered done"); break; }
+        if (conn_threw(w, t, n.child[0])) { expect(CH_ERROR, conn_code(w, t, n.child[0]), "connecting the successor threw: set_error"); break; }
+        fail("completed although its successor was never started and no stop request was visible");
+        break;
+      }
+      TapRec* c = child_done(c0, n0);
+      if (!c) { fail("completed although its successor has not"); break; }
+      same_as(c, "successor's result");
+      break;
+    }
+    case K_REPEAT_JUST: {
+      if (relaxed && t->channel == CH_DONE) break;
+      expect(CH_VALUE, mix(n.k, 78), "every round's just(v) yields v, then the predicate says stop");
+      break;
+    }
+    case K_RETRY_JUST: {
+      if (relaxed && t->channel == CH_DONE) break;
+      expect(CH_VALUE, n.k, "the third attempt's just(v) yields v");
+      break;
+    }
+    case K_JUST_FROM:
+      if (n.throws) expect(CH_ERROR, thrown, "callable threw: set_error(current_exception)");
+      else expect(CH_VALUE, n.k, "just_from(f) yields f()");
+      break;
     case K_REPEAT: {
       // source instance i runs; on value the predicate is asked: true => value, false => instance i+1 starts; error/done pass through
       if (n0 == 0) { fail("completed although its source was never connected"); break; }
@@ -1104,10 +1241,10 @@ bool other_stop_in_flight(World* w, TapRec* leaf, uint64_t at, TapRec* except_tr
   for (TapRec* c = leaf; c && c->parent; c = c->parent) {
     TapRec* p = c->parent;
     Node& pn = w->nodes[p->node];
-    if (pn.kind != K_WHEN_ALL && pn.kind != K_STOP_WHEN && pn.kind != K_WHEN_ANY) continue;
+    if (!interposes_stop(pn.kind)) continue;
     for (auto* s : w->taps) {
       if (s->parent != p || s == c || s == except_trigger || !s->completed) continue;
-      bool triggers = pn.kind != K_WHEN_ALL || s->channel != CH_VALUE;
+      bool triggers = !is_when_all(pn.kind) || s->channel != CH_VALUE;
       if (triggers && s->sig_enter < at && (!s->sig_exit || s->sig_exit > at)) return true;
     }
   }
@@ -1312,12 +1449,12 @@ void body_expr(void*) {
     // C04: losers of when_all / stop_when are told to stop
     for (auto* t : w->taps) {
       Node& n = w->nodes[t->node];
-      if (n.kind != K_WHEN_ALL && n.kind != K_STOP_WHEN && n.kind != K_WHEN_ANY) continue;
+      if (!interposes_stop(n.kind)) continue;
       for (int ci = 0; ci < n.nchild; ++ci) {
         TapRec* cs[4];
         int cn = child_taps(w, n.child[ci], t, cs, 4);
         if (!cn || !cs[0]->completed) continue;
-        bool triggers = n.kind != K_WHEN_ALL ? true : cs[0]->channel != CH_VALUE;
+        bool triggers = !is_when_all(n.kind) ? true : cs[0]->channel != CH_VALUE;
         if (!triggers) continue;
         // every leaf in a sibling subtree that completed after this child's completion was fully delivered must have seen stop
         for (auto* r : w->leafrecs) {
@@ -1364,6 +1501,16 @@ void body_expr(void*) {
       for (auto& c : w->calls) if (c.node == i) ++got;
       if (!(faulty && w->val_copy_throw_at))
         KIT_CHECK(want == got, "c05.fn-calls", "callable of node %d (%s) ran %d times but its child completed on the matching channel %d times", i, kKindName[n.kind], got, want);
+    }
+    // C05: a just(v) connected again (as an lvalue, by repeat_effect_until / retry_when) yields the same v every time
+    for (int i = 0; i < w->nnodes; ++i) {
+      Node& n = w->nodes[i];
+      if (n.kind != K_REPEAT_JUST && n.kind != K_RETRY_JUST) continue;
+      for (auto& c : w->calls)
+        if (c.node == i) {
+          KIT_CHECK(c.arg == n.k, "c05.outcome", "node %d (%s): a round's just(%ld) delivered %ld", i, kKindName[n.kind], n.k, c.arg);
+          usim_probe("re-connected just delivered its value");
+        }
     }
     // C02: every tracked value destroyed exactly once
     KIT_CHECK(w->vals_alive == 0, "c02.leak-object", "%d tracked value(s) still alive after the operation was destroyed", w->vals_alive);
